@@ -177,7 +177,7 @@ def gen_cases(rng, tier):
             p[DATA] = [rng.randint(0, 255) for _ in range(rng.randint(0, 13))]
             add(["enc_scp", p, k], "lengths", iso=(DATA, i))
     # -- random valid packets
-    n = 3000 if tier == "quick" else 200000
+    n = 3000 if tier == "quick" else 100000
     for j in range(n):
         if j % 4 == 0:
             add(["enc_sdp", rand_packet(rng)[:11]], "valid")
@@ -204,7 +204,7 @@ def gen_cases(rng, tier):
                 q[f] = pick_bad(rng, WIDTH[f])
         add(["enc_scp", q, n_present(q)] if r < 0.8 else ["enc_sdp", q[:11]], "outofwidth")
     # -- decoding of arbitrary byte strings: every length 0..30 with n_args -1..5 and the default
-    for ln in list(range(0, 31)) + [40, 64, 300]:
+    for ln in (list(range(0, 31)) + [40, 64, 300]) * (1 if tier == "quick" else 8):
         for na in (-1, 0, 1, 2, 3, 4, 5, None):
             add(["dec_scp", [rng.randint(0, 255) for _ in range(ln)], na], "garbage")
         add(["dec_sdp", [rng.randint(0, 255) for _ in range(ln)]], "garbage")
@@ -218,18 +218,47 @@ def gen_cases(rng, tier):
     return cases
 
 
-def sweep_cases(tier):
-    """full 2^16 sweeps of cmd_rc and seq (encode and decode), as digests for the correspondence and as raw
-    encodings for the oracle"""
+def ports_of(v):
+    """16-bit counter -> (dest_port, dest_cpu, src_port, src_cpu)"""
+    return v >> 13, (v >> 8) & 31, (v >> 5) & 7, v & 31
+
+
+def sweep_cases(rng, tier):
+    """full 2^16 sweeps (encode, round trip and decode), as digests for the correspondence and as raw encodings
+    for the oracle: cmd_rc and seq; in the thorough tier also all 8x32x8x32 port/core combinations, the
+    (dest_x, dest_y) and (src_x, src_y) planes, and further base packets"""
     out = []
-    for f in (11, 12):
-        for lo in range(0, 65536, 8192):
-            out.append(["sweep16", f, BASE, lo, lo + 8192])
-            out.append(["sweep16raw", f, BASE, lo, lo + 8192, 3])
-    for pos in (10, 12):
-        for lo in range(0, 65536, 8192):
-            out.append(["sweep16dec", pos, layout_scp(BASE), lo, lo + 8192])
+    bases = [BASE]
+    fields = [11, 12]
+    positions = [10, 12]
+    if tier != "quick":
+        for k in (0, 1, 2):
+            bases.append(rand_packet(rng, k))
+        fields += ["ports", "dest_xy", "src_xy"]
+        positions += [4, 6, 8]
+    for base in bases:
+        k = n_present(base)
+        for f in fields:
+            for lo in range(0, 65536, 8192):
+                out.append(["sweep16", f, base, lo, lo + 8192])
+                out.append(["sweep16raw", f, base, lo, lo + 8192, k])
+        for pos in positions:
+            for lo in range(0, 65536, 8192):
+                out.append(["sweep16dec", pos, layout_scp(base), lo, lo + 8192, k])
     return out
+
+
+def sweep_packet(base, f, v):
+    q = list(base)
+    if f == "ports":
+        q[2], q[3], q[4], q[5] = ports_of(v)
+    elif f == "dest_xy":
+        q[6], q[7] = v >> 8, v & 255
+    elif f == "src_xy":
+        q[8], q[9] = v >> 8, v & 255
+    else:
+        q[f] = v
+    return q
 
 
 # ------------------------------------------------------------------ Coq literals
@@ -249,6 +278,22 @@ Fixpoint zrange_from (lo : Z) (n : nat) : list Z := match n with O => [] | S m =
 Definition zrange (lo n : Z) : list Z := zrange_from lo (Z.to_nat n).
 Definition set_cmd (q : scp) v := {| sdp_part := sdp_part q; cmd_rc := v; seq := seq q; arg1 := arg1 q; arg2 := arg2 q; arg3 := arg3 q |}.
 Definition set_seq (q : scp) v := {| sdp_part := sdp_part q; cmd_rc := cmd_rc q; seq := v; arg1 := arg1 q; arg2 := arg2 q; arg3 := arg3 q |}.
+Definition set_sdp (q : scp) (f : sdp -> sdp) := {| sdp_part := f (sdp_part q); cmd_rc := cmd_rc q; seq := seq q; arg1 := arg1 q; arg2 := arg2 q; arg3 := arg3 q |}.
+Definition set_ports (q : scp) v := set_sdp q (fun p =>
+  {| reply_expected := reply_expected p; tag := tag p; dest_port := v / 8192; dest_cpu := v / 256 mod 32;
+     src_port := v / 32 mod 8; src_cpu := v mod 32; dest_x := dest_x p; dest_y := dest_y p; src_x := src_x p;
+     src_y := src_y p; data := data p |}).
+Definition set_dest_xy (q : scp) v := set_sdp q (fun p =>
+  {| reply_expected := reply_expected p; tag := tag p; dest_port := dest_port p; dest_cpu := dest_cpu p;
+     src_port := src_port p; src_cpu := src_cpu p; dest_x := v / 256; dest_y := v mod 256; src_x := src_x p;
+     src_y := src_y p; data := data p |}).
+Definition set_src_xy (q : scp) v := set_sdp q (fun p =>
+  {| reply_expected := reply_expected p; tag := tag p; dest_port := dest_port p; dest_cpu := dest_cpu p;
+     src_port := src_port p; src_cpu := src_cpu p; dest_x := dest_x p; dest_y := dest_y p; src_x := v / 256;
+     src_y := v mod 256; data := data p |}).
+Definition nums (q : scp) : list Z :=
+  let p := sdp_part q in
+  [tag p; dest_port p; dest_cpu p; src_port p; src_cpu p; dest_x p; dest_y p; src_x p; src_y p; cmd_rc q; seq q].
 Definition set2 (bs : list Z) (pos : nat) (v : Z) : list Z :=
   firstn pos bs ++ [v mod 256; v / 256] ++ skipn (pos + 2) bs.
 """
@@ -282,10 +327,11 @@ def coq_expr(c):
         return "rmap show_scp (scp_of_bytes %s %s)" % (zl(c[1]), "scp_default_n_args" if c[2] is None else zlit(c[2]))
     if k == "sweep16":
         return "fold_left (fun h v => dgr h (scp_bytes (%s %s v))) (zrange %d %d) (0, 0)" % (
-            "set_cmd" if c[1] == 11 else "set_seq", coq_scp(c[2]), c[3], c[4] - c[3])
+            {11: "set_cmd", 12: "set_seq", "ports": "set_ports", "dest_xy": "set_dest_xy",
+             "src_xy": "set_src_xy"}[c[1]], coq_scp(c[2]), c[3], c[4] - c[3])
     if k == "sweep16dec":
-        return ("fold_left (fun h v => dgr h (rmap (fun q => [cmd_rc q; seq q]) (scp_of_bytes (set2 %s %d v) 3))) "
-                "(zrange %d %d) (0, 0)" % (zl(c[2]), c[1], c[3], c[4] - c[3]))
+        return ("fold_left (fun h v => dgr h (rmap nums (scp_of_bytes (set2 %s %d v) %s))) "
+                "(zrange %d %d) (0, 0)" % (zl(c[2]), c[1], zlit(c[5]), c[3], c[4] - c[3]))
     raise ValueError(k)
 
 
@@ -328,7 +374,7 @@ def oracle(c, o, partner=None):
         if not in_width(q):
             return None                                   # outside the quantifier of the property
         if o[0] != "ok":
-            return ("encode-raises", "encoding a packet whose fields are all within their widths raised %s" % o[1])
+            return ("encode-raises", "encoding %r, whose fields are all within their widths, raised %s" % (q, o[1]))
         want = layout_scp(q) if scp else layout_sdp(q)
         if o[1] != want:
             i = next((i for i in range(min(len(want), len(o[1]))) if want[i] != o[1][i]), min(len(want), len(o[1])))
@@ -398,17 +444,17 @@ def isolation(field, q, oq, p, op):
 
 def oracle_sweep_raw(c, o):
     f, base, lo = c[1], c[2], c[3]
+    name = NAMES[f] if isinstance(f, int) else f
     for j, item in enumerate(o[1]):
-        q = list(base)
-        q[f] = lo + j
+        q = sweep_packet(base, f, lo + j)
         if item is None:
-            return ("encode-raises", "encoding raised with %s=%d" % (NAMES[f], lo + j), q)
+            return ("encode-raises", "encoding raised with %s=%d" % (name, lo + j), q)
         bs = list(bytes.fromhex(item[0]))
         if bs != layout_scp(q):
             return ("layout-scp", "encoded bytes with %s=%d differ from the documented layout: got %r, documented %r"
-                    % (NAMES[f], lo + j, bs, layout_scp(q)), q)
+                    % (name, lo + j, bs, layout_scp(q)), q)
         if item[1] is not True:
-            return ("roundtrip-" + NAMES[f], "decode(encode(p)) differs from p with %s=%d: %r" % (NAMES[f], lo + j, item[1]), q)
+            return ("roundtrip-" + name, "decode(encode(p)) differs from p with %s=%d: %r" % (name, lo + j, item[1]), q)
     return None
 
 
@@ -436,7 +482,7 @@ def run(chk, args):
         sweeps = []
     else:
         cases = gen_cases(chk.rng, chk.tier)
-        sweeps = sweep_cases(chk.tier)
+        sweeps = sweep_cases(chk.rng, chk.tier)
     corpus = os.path.join(lib.VERIF, "corpus", "C15.json")
     if os.path.exists(corpus):
         cases += [dict(case=c, stream="corpus") for c in json.load(open(corpus))]
@@ -482,7 +528,7 @@ def run(chk, args):
             chk.evaluations += s[4] - s[3]
             hit = oracle_sweep_raw(s, o)
             if hit:
-                report(hit[:2], dict(case=["enc_scp", hit[2], 3], stream="sweep16"))
+                report(hit[:2], dict(case=["enc_scp", hit[2], n_present(hit[2])], stream="sweep16"))
     mid = len(cases) // 2
     chk.sample(dict(case=cases[mid]["case"], implementation=outs[mid]))
     chk.sample(dict(case=cases[0]["case"], implementation=outs[0]))
@@ -509,8 +555,7 @@ def run(chk, args):
                            "decoding, error class; 2^16 sweeps of cmd_rc and seq by digest)" % len(mcases), True)
             # the decodings rig made of its own encodings, decoded by the model from the same bytes
             rt = [(c, o) for c, o in zip(flat, outs) if c[0] in ("enc_sdp", "enc_scp") and o[0] == "ok"]
-            if chk.tier == "quick":
-                rt = rt[:1500]
+            rt = rt[:1500] if chk.tier == "quick" else rt[:40000]
             dcs = [["dec_sdp", o[1]] if c[0] == "enc_sdp" else ["dec_scp", o[1], c[2]] for c, o in rt]
             vals = chk.coq_eval(HEADER, [coq_expr(d) for d in dcs], shard=500, name="rt")
             bad = 0
